@@ -627,6 +627,72 @@ def sccs(G):
     return out
 
 
+def _assigned_locals(node):
+    out = set()
+    for m in common.hir_walk(node):
+        if m["k"] in ("Assign", "AssignOp"):
+            l = m["l"]
+            while l["k"] in ("Field", "Index", "Unary", "AddrOf"):
+                l = l.get("base") or l.get("e")
+            if l["k"] == "Path" and l.get("res") == "local":
+                out.add(l["hid"])
+        if m["k"] == "AddrOf" and m.get("mut") and m["e"]["k"] == "Path" and m["e"].get("res") == "local":
+            out.add(m["e"]["hid"])
+        if m["k"] == "MethodCall" and m["recv"]["k"] == "Path" and m["recv"].get("res") == "local" and (m["recv"].get("ty") or "").startswith(("std::vec::Vec", "&mut ", "std::collections")):
+            if m["name"] in ("push", "push_back", "push_front", "insert", "extend", "extend_from_slice", "append"):
+                out.add(("grow", m["recv"]["hid"]))
+    return out
+
+
+def bounded_loop(n):
+    """A `while` whose termination is evident from its shape, else None.
+    (a) `while let Some(..) = <local>.next()` (also next_back / pop / pop_front / pop_back, the latter only when the body
+        never grows the collection): the iterator / collection is finite and shrinks every round;
+    (b) `while <i> < <bound>` (also <=, !=) where the body's own top-level statements increase `i` by a positive literal,
+        nothing else assigns `i`, and no local of the bound is assigned in the body."""
+    body = n.get("body") or {}
+    inner = body.get("expr")
+    if inner is None and len(body.get("stmts", [])) == 1:
+        inner = body["stmts"][0].get("e")
+    if not inner or inner["k"] != "If":
+        return None
+    els = inner.get("e")
+    if not els or not any(m["k"] == "Break" for m in common.hir_walk(els)):
+        return None
+    c = inner["c"]
+    then = inner["t"]
+    if c["k"] == "LetCond":
+        init = c["init"]
+        if init["k"] == "MethodCall" and init["recv"]["k"] in ("Path", "AddrOf"):
+            r = init["recv"]
+            while r["k"] == "AddrOf":
+                r = r["e"]
+            if r["k"] == "Path" and r.get("res") == "local":
+                somepat = (c["pat"].get("ctor_of") or c["pat"].get("def") or "")
+                if not somepat.endswith("Some"):
+                    return None
+                if init["name"] in ("next", "next_back"):
+                    return "while let Some(..) = iterator.next()"
+                if init["name"] in ("pop", "pop_front", "pop_back") and ("grow", r["hid"]) not in _assigned_locals(then):
+                    return "while let Some(..) = collection.pop() without growth"
+        return None
+    if c["k"] == "Binary" and c["op"] in ("<", "<=", "!=") and c["l"]["k"] == "Path" and c["l"].get("res") == "local":
+        i = c["l"]["hid"]
+        steps = []
+        if then["k"] == "Block":
+            for st in then["stmts"]:
+                e = st.get("e") or {}
+                if e.get("k") == "AssignOp" and e["op"].startswith("+") and e["l"]["k"] == "Path" and e["l"].get("hid") == i and e["r"]["k"] == "Lit" and isinstance(e["r"].get("v"), int) and e["r"]["v"] > 0:
+                    steps.append(e)
+        others = [m for m in common.hir_walk(then) if m["k"] in ("Assign", "AssignOp") and m["l"]["k"] == "Path" and m["l"].get("hid") == i and m not in steps]
+        bound_locals = {m["hid"] for m in common.hir_walk(c["r"]) if m["k"] == "Path" and m.get("res") == "local"}
+        if len(steps) == 1 and not others and not (bound_locals & {x for x in _assigned_locals(then) if not isinstance(x, tuple)}) and not any(m["k"] == "Continue" for m in common.hir_walk(then)):
+            if c["op"] == "!=" and steps[0]["r"]["v"] != 1:
+                return None
+            return "counter loop with a constant positive step"
+    return None
+
+
 def termination(cfg, crate, rep):
     G, n_edges = call_graph(crate)
     live = {fn for fn in G if not common.is_test_fn(fn)}
@@ -641,9 +707,12 @@ def termination(cfg, crate, rep):
     for fn, b in crate.bodies.items():
         if "hir" not in b or fn not in live:
             continue
+        if (b.get("dk") or "").startswith(("Const", "AssocConst", "Static", "AnonConst", "InlineConst")):
+            continue     # evaluated by the compiler: a non-terminating initialiser does not compile
         for n in common.hir_walk(b["hir"]):
             if n["k"] in ("Loop", "While"):
-                rep.ob("C10.term", "%s|loop|%s" % (cfg, fn), fn in LOOP_AUDIT, "`loop` / `while` statements are audited for termination (none exist in the audited tree)", sp=n.get("sp"))
+                why = bounded_loop(n)
+                rep.ob("C10.term", "%s|loop|%s" % (cfg, fn), fn in LOOP_AUDIT or why is not None, "`loop` / `while` statements terminate: a recognised bounded idiom (%s) or an audited loop" % (why or "while-let over next()/pop(), counter < bound with a constant positive step"), sp=n.get("sp"))
             elif n["k"] == "For":
                 n_for += 1
                 ity = (n.get("iter") or {}).get("ty", "")
